@@ -520,7 +520,26 @@ class Normaliser:
             if h is None and f.id in self.imports.get(mod, {}):
                 m2, n2 = self.imports[mod][f.id]
                 h = self.module_funcs.get((m2, n2))
-            if h is None or not self.is_candidate(h):
+            if h is None:
+                # a function defined locally in the caller (a closure over its loop-invariant
+                # names) that the pinned tree does not have: its body refers to the caller's own
+                # variables, so it is spliced like any helper
+                cur = getattr(self, "_cur_fn", None)
+                q = getattr(cur, "_qual", None)
+                if cur is not None and q:
+                    local = [b for b in cur.body if isinstance(b, ast.FunctionDef) and b.name == f.id]
+                    stores_ = sum(1 for n in _walk_scope(cur) if isinstance(n, ast.Name) and n.id == f.id
+                                  and not isinstance(n.ctx, ast.Load)) if local else 0
+                    if len(local) == 1 and stores_ == 0 and self.known is not None and \
+                            ("%s:%s.%s" % (mod, q, f.id)) not in self.known and not local[0].decorator_list \
+                            and not any(isinstance(x, (ast.Nonlocal, ast.Global)) for x in ast.walk(local[0])) \
+                            and not any(isinstance(x, ast.Call) and isinstance(x.func, ast.Name) and x.func.id == f.id
+                                        for x in ast.walk(local[0])) \
+                            and not local[0].args.kwarg and not local[0].args.posonlyargs:
+                        hl = Helper(mod, None, local[0], cur.body)
+                        return hl, None
+                return None
+            if not self.is_candidate(h):
                 return None
             return h, None
         if isinstance(f, ast.Attribute) and isinstance(f.value, ast.Call) and isinstance(f.value.func, ast.Name) \
@@ -550,6 +569,30 @@ class Normaliser:
                     return h2, ast.Name(id=cur_fn.args.args[0].arg, ctx=ast.Load())
                 todo = list(self.class_bases.get(q, [])) + todo
             return None
+        if isinstance(f, ast.Attribute) and isinstance(f.value, ast.Name):
+            # a method of a private record (NamedTuple) class called on a local bound to one
+            cur_fn0 = getattr(self, "_cur_fn", None)
+            hint = getattr(cur_fn0, "_recv_records", {}).get(f.value.id) if cur_fn0 is not None else None
+            if hint is not None and self._record_class(mod, hint) is not None:
+                hm = self.class_methods.get(hint, {}).get(f.attr)
+                if hm is not None and not hm.static and not hm.classmethod and not hm.other_deco and not hm.generator:
+                    return hm, f.value
+            if cur_fn0 is not None:
+                rl = getattr(cur_fn0, "_record_locals", None)
+                if rl is None:
+                    rl = {}
+                    for n0 in _walk_scope(cur_fn0):
+                        if isinstance(n0, ast.Assign) and len(n0.targets) == 1 and isinstance(n0.targets[0], ast.Name) \
+                                and isinstance(n0.value, ast.Call) and isinstance(n0.value.func, ast.Name) \
+                                and n0.value.func.id.startswith("_") and self._record_class(mod, n0.value.func.id) is not None:
+                            rl[n0.targets[0].id] = n0.value.func.id
+                    cur_fn0._record_locals = rl  # type: ignore[attr-defined]
+                cn0 = rl.get(f.value.id)
+                if cn0 is not None:
+                    hm = self.class_methods.get(cn0, {}).get(f.attr)
+                    if hm is not None and not hm.static and not hm.classmethod and not hm.other_deco \
+                            and not hm.generator:
+                        return hm, f.value
         if isinstance(f, ast.Attribute):
             hs = self.defs.get(f.attr, [])
             if len(hs) > 1 and caller_cls is not None and isinstance(f.value, ast.Name):
@@ -820,6 +863,7 @@ class Normaliser:
     def _inline_in_function(self, mod: str, fn: ast.FunctionDef, cls: Optional[str]) -> bool:
         changed = False
         self._cur_fn = fn
+        fn._record_locals = None  # type: ignore[attr-defined]
 
         def splice_block(stmts: List[ast.stmt]) -> List[ast.stmt]:
             nonlocal changed
@@ -864,7 +908,7 @@ class Normaliser:
             return "return", st.value
         if isinstance(st, ast.Assign) and isinstance(st.value, ast.Call):
             return "assign", st.value
-        if isinstance(st, ast.AnnAssign) and isinstance(st.value, ast.Call) and isinstance(st.target, ast.Name):
+        if isinstance(st, ast.AnnAssign) and isinstance(st.value, ast.Call):
             return "assign", st.value
         return None
 
@@ -881,7 +925,9 @@ class Normaliser:
         if isinstance(f.value.func, ast.Name) and f.value.func.id == "super":
             return None
         hs = self.defs.get(f.attr, [])
-        if len(hs) != 1 or hs[0].cls is None or not self.is_candidate(hs[0]) or hs[0].static or hs[0].classmethod:
+        rec_recv = isinstance(f.value.func, ast.Name) and self._record_class(getattr(fn, "_mod", ""), f.value.func.id) is not None
+        if not rec_recv and (len(hs) != 1 or hs[0].cls is None or not self.is_candidate(hs[0]) or hs[0].static
+                             or hs[0].classmethod):
             return None
         taken = getattr(fn, "_taken", None)
         if taken is None:
@@ -895,6 +941,11 @@ class Normaliser:
         tmp = ast.Assign(targets=[ast.Name(id=nm, ctx=ast.Store())], value=f.value)
         ast.copy_location(tmp, st)
         _set_loc(tmp.targets[0], st)
+        if rec_recv:
+            rr = getattr(fn, "_recv_records", None)
+            if rr is None:
+                rr = fn._recv_records = {}  # type: ignore[attr-defined]
+            rr[nm] = f.value.func.id  # type: ignore[attr-defined]
         f.value = ast.copy_location(ast.Name(id=nm, ctx=ast.Load()), f.value)
         return tmp
 
@@ -1113,6 +1164,15 @@ class Normaliser:
 
             def make(v: Optional[ast.expr]) -> List[ast.stmt]:
                 val = v if v is not None else ast.Constant(value=None)
+                if isinstance(st, ast.AnnAssign) and not isinstance(st.target, ast.Name):
+                    # (the annotation of an attribute target tells the analysis its type)
+                    aa = ast.AnnAssign(target=copy.deepcopy(st.target), annotation=copy.deepcopy(st.annotation),
+                                       value=val, simple=0)
+                    ast.copy_location(aa, st)
+                    _set_loc(aa.target, st)
+                    if v is None:
+                        _set_loc(val, st)
+                    return [aa]
                 a = ast.Assign(targets=copy.deepcopy(tg), value=val)
                 ast.copy_location(a, st)
                 for t in a.targets:
@@ -1192,6 +1252,19 @@ class Normaliser:
             hb = _body_wo_doc(h.node)
             if len(hb) == 1 and isinstance(hb[0], ast.Return) and hb[0].value is not None and not h.generator:
                 return hb[0].value
+            # a generator helper that is one loop with one yield is the generator expression
+            #   (E for T in IT [if c])   (consumed where it is created, see the E0 assumptions)
+            if h.generator and len(hb) == 1 and isinstance(hb[0], ast.For) and not hb[0].orelse and len(hb[0].body) == 1:
+                inner = hb[0].body[0]
+                conds: List[ast.expr] = []
+                while isinstance(inner, ast.If) and not inner.orelse and len(inner.body) == 1:
+                    conds.append(inner.test)
+                    inner = inner.body[0]
+                if isinstance(inner, ast.Expr) and isinstance(inner.value, ast.Yield) and inner.value.value is not None \
+                        and not any(isinstance(x, (ast.Yield, ast.YieldFrom)) for c_ in conds for x in ast.walk(c_)):
+                    ge = ast.GeneratorExp(elt=inner.value.value, generators=[ast.comprehension(
+                        target=hb[0].target, iter=hb[0].iter, ifs=conds, is_async=0)])
+                    return ast.fix_missing_locations(ast.copy_location(ge, h.node))
             if not h.generator and any(isinstance(x, ast.If) for x in hb) and \
                     not any(isinstance(x, ast.Raise) for s_ in hb for x in ast.walk(s_)):
                 e = norm._body_as_expr(copy.deepcopy(hb))
@@ -1855,6 +1928,9 @@ class Normaliser:
                             return True
                         if isinstance(e_, ast.Tuple):
                             return all(lit(x_) for x_ in e_.elts)
+                        if isinstance(e_, ast.Call) and isinstance(e_.func, ast.Name) and not e_.keywords and \
+                                self._record_class(getattr(fn, "_mod", ""), e_.func.id) is not None:
+                            return all(lit(x_) for x_ in e_.args)
                         p__ = attr_path_(e_)
                         return bool(p__) and p__[0] not in stores and p__[0] not in params_ and \
                             (len(p__) == 1 or p__[0] not in ("self", "cls"))
@@ -2026,6 +2102,68 @@ class Normaliser:
                     changed = True
                     rep.shapes += 1
                     continue
+                # it = iter(X); while True: try: v = next(it) / except StopIteration: break / else: BODY  ->  for v in X: BODY
+                if isinstance(st, ast.Assign) and len(st.targets) == 1 and isinstance(st.targets[0], ast.Name) \
+                        and isinstance(st.value, ast.Call) and isinstance(st.value.func, ast.Name) and st.value.func.id == "iter" \
+                        and len(st.value.args) == 1 and not st.value.keywords and st in stmts:
+                    it_ = st.targets[0].id
+                    k_ = stmts.index(st)
+                    nxt_ = stmts[k_ + 1] if k_ + 1 < len(stmts) else None
+                    uses_ = [n_ for n_ in ast.walk(fn) if isinstance(n_, ast.Name) and n_.id == it_ and isinstance(n_.ctx, ast.Load)]
+                    if isinstance(nxt_, ast.While) and isinstance(nxt_.test, ast.Constant) and nxt_.test.value is True \
+                            and not nxt_.orelse and nxt_.body and isinstance(nxt_.body[0], ast.Try) and len(uses_) == 1 \
+                            and stores.get(it_) == 1:
+                        tr_ = nxt_.body[0]
+                        okp = (len(tr_.body) == 1 and isinstance(tr_.body[0], ast.Assign) and len(tr_.body[0].targets) == 1
+                               and isinstance(tr_.body[0].value, ast.Call) and isinstance(tr_.body[0].value.func, ast.Name)
+                               and tr_.body[0].value.func.id == "next" and len(tr_.body[0].value.args) == 1
+                               and isinstance(tr_.body[0].value.args[0], ast.Name) and tr_.body[0].value.args[0].id == it_
+                               and len(tr_.handlers) == 1 and tr_.handlers[0].type is not None
+                               and (attr_path_(tr_.handlers[0].type) or ("",))[-1] == "StopIteration"
+                               and len(tr_.handlers[0].body) == 1 and isinstance(tr_.handlers[0].body[0], ast.Break)
+                               and not tr_.finalbody)
+                        rest_ = list(tr_.orelse) + list(nxt_.body[1:]) if okp else []
+                        # a break / continue of the body keeps its meaning (same loop level)
+                        if okp and rest_:
+                            new_for = ast.copy_location(ast.For(target=tr_.body[0].targets[0], iter=st.value.args[0],
+                                                                body=rest_, orelse=[]), nxt_)
+                            stmts[k_ + 1] = new_for
+                            changed = True
+                            rep.shapes += 1
+                            continue
+                # xs = [] ; (only) xs.append(e) at this block level ... ; one use f(*xs) later in the block
+                if isinstance(st, ast.Assign) and len(st.targets) == 1 and isinstance(st.targets[0], ast.Name) \
+                        and isinstance(st.value, ast.List) and not st.value.elts and stores.get(st.targets[0].id) == 1:
+                    xs = st.targets[0].id
+                    here = stmts[stmts.index(st) + 1:] if st in stmts else []
+                    apps = [s_ for s_ in here if isinstance(s_, ast.Expr) and isinstance(s_.value, ast.Call)
+                            and isinstance(s_.value.func, ast.Attribute) and s_.value.func.attr == "append"
+                            and isinstance(s_.value.func.value, ast.Name) and s_.value.func.value.id == xs
+                            and len(s_.value.args) == 1 and not s_.value.keywords]
+                    loads_ = [n_ for n_ in ast.walk(fn) if isinstance(n_, ast.Name) and n_.id == xs and isinstance(n_.ctx, ast.Load)]
+                    stars = [(c_, a_) for s_ in here for c_ in ast.walk(s_) if isinstance(c_, ast.Call) for a_ in c_.args
+                             if isinstance(a_, ast.Starred) and isinstance(a_.value, ast.Name) and a_.value.id == xs]
+                    if apps and len(stars) == 1 and len(loads_) == len(apps) + 1 and len(apps) <= 6:
+                        taken_ = getattr(fn, "_taken", None)
+                        if taken_ is None:
+                            taken_ = _all_names(fn)
+                            fn._taken = taken_  # type: ignore[attr-defined]
+                        names_ = []
+                        for i_, ap_ in enumerate(apps):
+                            nm_ = "%s_%d" % (xs, i_)
+                            while nm_ in taken_:
+                                nm_ += "_"
+                            taken_.add(nm_)
+                            names_.append(nm_)
+                            new_ = ast.copy_location(ast.Assign(targets=[ast.copy_location(ast.Name(id=nm_, ctx=ast.Store()), ap_)],
+                                                                value=ap_.value.args[0]), ap_)
+                            stmts[stmts.index(ap_)] = new_
+                        c_, a_ = stars[0]
+                        i_ = c_.args.index(a_)
+                        c_.args[i_:i_ + 1] = [ast.copy_location(ast.Name(id=nm_, ctx=ast.Load()), a_) for nm_ in names_]
+                        changed = True
+                        rep.shapes += 1
+                        continue
                 # x = <quiet expression>  with x never read: nothing
                 if isinstance(st, ast.Assign) and len(st.targets) == 1 and isinstance(st.targets[0], ast.Name) \
                         and _quiet(st.value) and _purity(st.value, set()) < 2 and len(stmts) > 1 \
@@ -2119,6 +2257,32 @@ class Normaliser:
                 if uses_ and len(uses_) == len(called_):
                     fobjs[nm_] = (lam_, dict(zip(fields, n.value.args)))
 
+        # d = {"k": v, ...} used only as f(**d)  ->  f(k=v, ...);   xs = [] ; xs.append(a) ... ; f(*xs) -> f(a, ...)
+        for n in list(_walk_scope(fn)):
+            if isinstance(n, ast.Assign) and len(n.targets) == 1 and isinstance(n.targets[0], ast.Name) \
+                    and stores.get(n.targets[0].id) == 1 and isinstance(n.value, ast.Dict) and n.value.keys \
+                    and all(isinstance(k_, ast.Constant) and isinstance(k_.value, str) and k_.value.isidentifier()
+                            for k_ in n.value.keys) \
+                    and all(Normaliser._atomic(v_) and (isinstance(v_, ast.Constant) or stores.get(attr_path_(v_)[0], 0) == 0)
+                            for v_ in n.value.values):
+                nm_ = n.targets[0].id
+                loads_ = [x for x in ast.walk(fn) if isinstance(x, ast.Name) and x.id == nm_ and isinstance(x.ctx, ast.Load)]
+                kwuses = [(c_, k_) for c_ in ast.walk(fn) if isinstance(c_, ast.Call) for k_ in c_.keywords
+                          if k_.arg is None and isinstance(k_.value, ast.Name) and k_.value.id == nm_]
+                if len(loads_) == 1 and len(kwuses) == 1:
+                    c_, k_ = kwuses[0]
+                    idx_ = c_.keywords.index(k_)
+                    c_.keywords[idx_:idx_ + 1] = [ast.keyword(arg=kk.value, value=copy.deepcopy(vv))
+                                                  for kk, vv in zip(n.value.keys, n.value.values)]
+                    for holder_ in ast.walk(fn):
+                        for fld_ in ("body", "orelse", "finalbody"):
+                            b_ = getattr(holder_, fld_, None)
+                            if isinstance(b_, list) and n in b_ and len(b_) > 1:
+                                b_.remove(n)
+                    ast.fix_missing_locations(c_)
+                    changed = True
+                    rep.shapes += 1
+
         def beta(lam: ast.Lambda, call: ast.Call) -> Optional[ast.expr]:
             a = lam.args
             if a.vararg or a.kwarg or a.kwonlyargs or a.defaults or a.posonlyargs or call.keywords \
@@ -2146,6 +2310,14 @@ class Normaliser:
             def visit_Compare(self, node: ast.Compare) -> ast.AST:
                 nonlocal changed
                 self.generic_visit(node)
+                # isinstance(x, T) is True / is False   (isinstance returns a bool)
+                if len(node.ops) == 1 and isinstance(node.ops[0], (ast.Is, ast.IsNot)) and isinstance(node.left, ast.Call) \
+                        and isinstance(node.left.func, ast.Name) and node.left.func.id == "isinstance" \
+                        and isinstance(node.comparators[0], ast.Constant) and isinstance(node.comparators[0].value, bool):
+                    positive = node.comparators[0].value == isinstance(node.ops[0], ast.Is)
+                    changed = True
+                    rep.shapes += 1
+                    return node.left if positive else ast.copy_location(ast.UnaryOp(op=ast.Not(), operand=node.left), node)
                 # x in frozenset((a, b)) / tuple / list of constants  ->  x in {a, b}
                 if len(node.ops) == 1 and isinstance(node.ops[0], (ast.In, ast.NotIn)):
                     c = node.comparators[0]
@@ -2494,6 +2666,61 @@ class Normaliser:
                         cur = new
                 changed = True
         blocks(fn.body, True)
+        # a local bound once in each of several sibling blocks and used only inside the block that
+        # bound it (after the binding): one name per block
+        all_blocks: List[List[ast.stmt]] = []
+
+        def collect(stmts: List[ast.stmt]) -> None:
+            all_blocks.append(stmts)
+            for st in stmts:
+                if isinstance(st, ScopeT):
+                    continue
+                for fld in ("body", "orelse", "finalbody"):
+                    sub = getattr(st, fld, None)
+                    if isinstance(sub, list) and sub and isinstance(sub[0], ast.stmt):
+                        collect(sub)
+                if isinstance(st, ast.Try):
+                    for hd in st.handlers:
+                        collect(hd.body)
+        collect(fn.body)
+        where: Dict[str, List[Tuple[List[ast.stmt], int]]] = {}
+        for blk in all_blocks:
+            for i, st in enumerate(blk):
+                if isinstance(st, ast.Assign) and len(st.targets) == 1 and isinstance(st.targets[0], ast.Name):
+                    where.setdefault(st.targets[0].id, []).append((blk, i))
+        for nm, sites in sorted(where.items()):
+            if len(sites) < 2 or nm in params or nm in escaping or all_stores.get(nm) != len(sites):
+                continue
+            if len({id(b) for b, _ in sites}) != len(sites):
+                continue
+            # blocks must be disjoint (none nested in another) and hold every load after the binding
+            def inside(blk: List[ast.stmt], i: int) -> int:
+                return sum(1 for st in blk[i + 1:] for n in [st] + list(_walk_scope(st))
+                           if isinstance(n, ast.Name) and n.id == nm and isinstance(n.ctx, ast.Load))
+            total = sum(1 for n in _walk_scope(fn) if isinstance(n, ast.Name) and n.id == nm and isinstance(n.ctx, ast.Load))
+            if total != sum(inside(b, i) for b, i in sites):
+                continue
+            nested = False
+            for b1, _i1 in sites:
+                for b2, _i2 in sites:
+                    if b1 is not b2 and any(any(x is y for y in ast.walk(st)) for st in b1 for x in b2):
+                        nested = True
+            if nested or any(any(isinstance(n, ast.Name) and n.id == nm for n in ast.walk(b[i].value)) for b, i in sites):  # type: ignore[attr-defined]
+                continue
+            # loops: a use before the binding in the same block would see the previous iteration
+            if any(any(isinstance(n, ast.Name) and n.id == nm for st in b[:i] for n in ast.walk(st)) for b, i in sites):
+                continue
+            for k, (b, i) in enumerate(sites[1:], start=2):
+                new = "%s_v%d" % (nm, k)
+                while new in taken:
+                    k += 1
+                    new = "%s_v%d" % (nm, k)
+                taken.add(new)
+                b[i].targets[0] = ast.copy_location(ast.Name(id=new, ctx=ast.Store()), b[i].targets[0])  # type: ignore[attr-defined]
+                sub = _Subst({nm: ast.Name(id=new, ctx=ast.Load())})
+                for j in range(i + 1, len(b)):
+                    b[j] = sub.visit(b[j])
+            changed = True
         return changed
 
     # ------------------------------------------------------------------ N2
@@ -2740,11 +2967,27 @@ class Normaliser:
             hs = [h for h in self.defs.get(nm, []) if h.cls is not None]
             if not hs:
                 return None
+            if isinstance(f.value, ast.Name) and f.value.id in self.class_names:
+                # Class.method(...): the method that class defines (or inherits)
+                q0 = self.class_by_simple.get(f.value.id)
+                seen0: Set[str] = set()
+                todo0 = [q0] if q0 else []
+                while todo0:
+                    c0 = todo0.pop(0)
+                    if c0 in seen0:
+                        continue
+                    seen0.add(c0)
+                    m0 = self.class_methods.get(c0, {}).get(nm)
+                    if m0 is not None:
+                        hs = [m0]
+                        break
+                    todo0 = [self.class_by_simple.get(b_) for b_ in self.class_bases.get(c0, [])
+                             if self.class_by_simple.get(b_)] + todo0
             sigs = {tuple(a.arg for a in h.node.args.args) for h in hs}
             if len(sigs) != 1:
                 # the keywords used at the call select among the methods of that name
                 used = {k.arg for k in call.keywords}
-                hs = [h for h in hs if used and used <= {a.arg for a in h.node.args.args}]
+                hs = [h for h in hs if used and used <= {a.arg for a in h.node.args.args + h.node.args.kwonlyargs}]
                 sigs = {tuple(a.arg for a in h.node.args.args) for h in hs}
                 if len(sigs) != 1:
                     return None
@@ -2856,6 +3099,18 @@ class Normaliser:
             p_ = attr_path_(e)
             if p_ and len(p_) >= 2 and p_[0] in imported and not counts.get(p_[0]):
                 return True
+            # a member of a class of this module (an enum member): _ADDED = _EventType.ADDED
+            if p_ and len(p_) == 2 and p_[0] in toplevel_classes and not counts.get(p_[0]) and p_[1].isupper():
+                return True
+            # a private record (NamedTuple) built from literals
+            if isinstance(e, ast.Call) and isinstance(e.func, ast.Name) and not e.keywords and e.args and \
+                    self._record_class(mod, e.func.id) is not None:
+                saved_ = nested_in_tuple[0]
+                nested_in_tuple[0] = True
+                try:
+                    return all(literal(a_) for a_ in e.args)
+                finally:
+                    nested_in_tuple[0] = saved_
             # an immutable value built from literals: re.compile("..."), frozenset((...))
             if isinstance(e, ast.Call) and not e.keywords and len(e.args) == 1 and _lit0_args(e):
                 fo = origin(e.func)
@@ -2914,6 +3169,7 @@ class Normaliser:
         for mod, tree in self.trees.items():
             absimp_cur = self.abs_imports.get(mod, {})
             toplevel = {st.name for st in tree.body if isinstance(st, (ast.ClassDef, ast.FunctionDef))}
+            toplevel_classes = {st.name for st in tree.body if isinstance(st, ast.ClassDef)}
             imported: Set[str] = set()
             for st in tree.body:
                 for x in ([st] if not isinstance(st, ast.If) else list(st.body) + list(st.orelse)):
@@ -3049,7 +3305,8 @@ class Normaliser:
         for _ in range(4):
             c = self.copyprop(fn)
             d = self.shapes(fn)
-            if not (c or d):
+            g = self.records(fn)
+            if not (c or d or g):
                 break
 
     def _local_passes(self) -> None:
@@ -3065,8 +3322,294 @@ class Normaliser:
                     d = self.shapes(fn)
                     t = self.thread(fn)
                     r = self.early_returns(fn)
-                    if not (a or b or c or d or v or e or t or r):
+                    g = self.records(fn)
+                    if not (a or b or c or d or v or e or t or r or g):
                         break
+
+    def _record_class(self, mod: str, name: str) -> Optional[Tuple[List[str], Dict[str, ast.expr], ast.ClassDef]]:
+        """(field names, defaults, class) for a private module-level NamedTuple class of ``mod`` that
+        the pinned tree does not have"""
+        tree = self.trees.get(mod)
+        if tree is None or not name.startswith("_"):
+            return None
+        rc = getattr(self, "_record_cache", None)
+        if rc is None:
+            rc = self._record_cache = {}
+        ck = (mod, name, id(tree), len(tree.body))
+        if ck in rc:
+            return rc[ck]
+        rc[ck] = None
+        res = self._record_class_uncached(mod, name)
+        rc[ck] = res
+        return res
+
+    def _record_class_uncached(self, mod: str, name: str) -> Optional[Tuple[List[str], Dict[str, ast.expr], ast.ClassDef]]:
+        tree = self.trees[mod]
+        c = next((n for n in tree.body if isinstance(n, ast.ClassDef) and n.name == name), None)
+        if c is not None and not c.bases and not c.keywords and not c.decorator_list:
+            return self._plain_record_class(mod, name, c)
+        if c is None or len(c.bases) != 1 or (attr_path_(c.bases[0]) or ("",))[-1] != "NamedTuple" or c.keywords \
+                or c.decorator_list:
+            return None
+        if self.known is not None and any(k.startswith("%s:%s." % (mod, name)) for k in self.known):
+            return None
+        if any(k.startswith("%s:%s." % (mod, name)) for k in (self.vocab.get("class_attrs") or [])):
+            return None
+        fields: List[str] = []
+        defaults: Dict[str, ast.expr] = {}
+        for b in c.body:
+            if isinstance(b, ast.AnnAssign) and isinstance(b.target, ast.Name):
+                fields.append(b.target.id)
+                if b.value is not None:
+                    defaults[b.target.id] = b.value
+            elif isinstance(b, ast.FunctionDef):
+                if b.name in ("__new__", "__init__", "__getattr__", "__getattribute__", "__iter__", "__getitem__", "__len__"):
+                    return None
+            elif isinstance(b, ast.Expr) and isinstance(b.value, ast.Constant):
+                continue
+            elif isinstance(b, ast.Pass):
+                continue
+            else:
+                return None
+        return (fields, defaults, c) if fields else None
+
+    def _plain_record_class(self, mod: str, name: str, c: ast.ClassDef
+                            ) -> Optional[Tuple[List[str], Dict[str, ast.expr], ast.ClassDef]]:
+        """a private class without bases whose ``__init__`` only stores its parameters in attributes
+        (one each) and whose other methods only read them: a record with methods"""
+        if self.known is not None and any(k.startswith("%s:%s." % (mod, name)) for k in self.known):
+            return None
+        init = None
+        for b in c.body:
+            if isinstance(b, ast.Expr) and isinstance(b.value, ast.Constant):
+                continue
+            if isinstance(b, ast.Assign) and len(b.targets) == 1 and isinstance(b.targets[0], ast.Name) \
+                    and b.targets[0].id == "__slots__":
+                continue
+            if isinstance(b, ast.FunctionDef):
+                if b.name == "__init__":
+                    init = b
+                elif b.name.startswith("__") and b.name.endswith("__"):
+                    return None         # (callable / iterable helper objects are handled elsewhere)
+                if b.decorator_list:
+                    return None
+                continue
+            return None
+        if init is None:
+            return None
+        ia = init.args
+        if ia.vararg or ia.kwarg or ia.kwonlyargs or ia.posonlyargs or not ia.args or len(ia.args) < 2:
+            return None
+        me = ia.args[0].arg
+        params = [a.arg for a in ia.args[1:]]
+        attr_of: Dict[str, str] = {}
+        for st in _body_wo_doc(init):
+            if isinstance(st, ast.Assign) and len(st.targets) == 1 and isinstance(st.targets[0], ast.Attribute) \
+                    and isinstance(st.targets[0].value, ast.Name) and st.targets[0].value.id == me \
+                    and isinstance(st.value, ast.Name) and st.value.id in params and st.value.id not in attr_of:
+                attr_of[st.value.id] = st.targets[0].attr
+            else:
+                return None
+        if sorted(attr_of) != sorted(params):
+            return None
+        # nobody writes the attributes afterwards
+        names = set(attr_of.values())
+        for t in self.trees.values():
+            for n in ast.walk(t):
+                if isinstance(n, ast.Attribute) and n.attr in names and not isinstance(n.ctx, ast.Load):
+                    inside_init = any(n is x for x in ast.walk(init))
+                    if not inside_init:
+                        return None
+        defaults: Dict[str, ast.expr] = {}
+        for p_, d_ in zip(params[len(params) - len(ia.defaults):], ia.defaults):
+            defaults[attr_of[p_]] = d_
+        c._rec_params = params  # type: ignore[attr-defined]
+        return [attr_of[p_] for p_ in params], defaults, c
+
+    def _record_args(self, rec: Tuple[List[str], Dict[str, ast.expr], ast.ClassDef], call: ast.Call
+                     ) -> Optional[List[ast.expr]]:
+        fields, defaults, _c = rec
+        params = getattr(_c, "_rec_params", None)
+        if params is not None and call.keywords:
+            # keywords name constructor parameters, fields are the attributes they are stored in
+            ren = dict(zip(params, fields))
+            call = ast.Call(func=call.func, args=call.args,
+                            keywords=[ast.keyword(arg=ren.get(k.arg, k.arg), value=k.value) for k in call.keywords])
+        if any(isinstance(a, ast.Starred) for a in call.args) or any(k.arg is None for k in call.keywords) \
+                or len(call.args) > len(fields):
+            return None
+        out: Dict[str, ast.expr] = {}
+        for f_, a in zip(fields, call.args):
+            out[f_] = a
+        for k in call.keywords:
+            if k.arg not in fields or k.arg in out:
+                return None
+            out[k.arg] = k.value
+        for f_ in fields:
+            if f_ not in out:
+                if f_ not in defaults:
+                    return None
+                out[f_] = copy.deepcopy(defaults[f_])
+        return [out[f_] for f_ in fields]
+
+    def records(self, fn: ast.FunctionDef) -> bool:
+        """scalar replacement of private NamedTuple records: ``R(a, b).x`` is ``a`` (when ``b`` is
+        quiet); a local bound once to ``R(a, b)`` and used only through its fields, ``*v`` or
+        ``p, q = v`` is the locals ``v_x = a; v_y = b``"""
+        mod = getattr(fn, "_mod", "")
+        changed = False
+        norm = self
+        tree_ = self.trees.get(mod)
+        cand_names = getattr(tree_, "_record_names", None) if tree_ is not None else set()
+        if tree_ is not None and (cand_names is None or getattr(tree_, "_record_names_len", -1) != len(tree_.body)):
+            cand_names = {c_.name for c_ in tree_.body if isinstance(c_, ast.ClassDef) and c_.name.startswith("_")}
+            tree_._record_names = cand_names  # type: ignore[attr-defined]
+            tree_._record_names_len = len(tree_.body)  # type: ignore[attr-defined]
+        if not cand_names or not any(isinstance(c_, ast.Call) and isinstance(c_.func, ast.Name) and c_.func.id in cand_names
+                                     for c_ in ast.walk(fn)):
+            return False
+
+        class P(ast.NodeTransformer):
+            def visit_FunctionDef(self, node: ast.FunctionDef) -> ast.AST:
+                return self.generic_visit(node) if node is fn else node
+
+            def visit_Call(self, node: ast.Call) -> ast.AST:
+                nonlocal changed
+                self.generic_visit(node)
+                new_args: List[ast.expr] = []
+                for a in node.args:
+                    if isinstance(a, ast.Starred) and isinstance(a.value, ast.Call) and isinstance(a.value.func, ast.Name):
+                        rec = norm._record_class(mod, a.value.func.id)
+                        ra = norm._record_args(rec, a.value) if rec is not None else None
+                        if ra is not None:
+                            new_args.extend(ra)          # f(*R(a, b)) is f(a, b)
+                            changed = True
+                            continue
+                    new_args.append(a)
+                node.args = new_args
+                return node
+
+            def visit_Attribute(self, node: ast.Attribute) -> ast.AST:
+                nonlocal changed
+                self.generic_visit(node)
+                v = node.value
+                if isinstance(v, ast.Call) and isinstance(v.func, ast.Name) and isinstance(node.ctx, ast.Load):
+                    rec = norm._record_class(mod, v.func.id)
+                    if rec is not None and node.attr in rec[0]:
+                        args = norm._record_args(rec, v)
+                        if args is not None:
+                            i = rec[0].index(node.attr)
+                            if all(_purity(a, set()) < 2 for j, a in enumerate(args) if j != i):
+                                changed = True
+                                return ast.copy_location(args[i], node)
+                return node
+        P().visit(fn)
+        stores: Dict[str, int] = {}
+        for n in _walk_scope(fn):
+            if isinstance(n, ast.Name) and not isinstance(n.ctx, ast.Load):
+                stores[n.id] = stores.get(n.id, 0) + 1
+        params = {a.arg for a in ast.walk(fn.args) if isinstance(a, ast.arg)}
+        taken = getattr(fn, "_taken", None)
+        if taken is None:
+            taken = _all_names(fn)
+            fn._taken = taken  # type: ignore[attr-defined]
+
+        def blocks(stmts: List[ast.stmt]) -> None:
+            nonlocal changed
+            for st in list(stmts):
+                if isinstance(st, ScopeT):
+                    continue
+                for fld in ("body", "orelse", "finalbody"):
+                    sub = getattr(st, fld, None)
+                    if isinstance(sub, list) and sub and isinstance(sub[0], ast.stmt):
+                        blocks(sub)
+                if isinstance(st, ast.Try):
+                    for hd in st.handlers:
+                        blocks(hd.body)
+            for idx, st in enumerate(list(stmts)):
+                if not (isinstance(st, ast.Assign) and len(st.targets) == 1 and isinstance(st.targets[0], ast.Name)
+                        and isinstance(st.value, ast.Call) and isinstance(st.value.func, ast.Name)):
+                    continue
+                v = st.targets[0].id
+                rec = norm._record_class(mod, st.value.func.id)
+                if rec is None or stores.get(v) != 1 or v in params:
+                    continue
+                args = norm._record_args(rec, st.value)
+                if args is None:
+                    continue
+                fields = rec[0]
+                loads = [n for n in ast.walk(fn) if isinstance(n, ast.Name) and n.id == v and isinstance(n.ctx, ast.Load)]
+                ok = True
+                for n in ast.walk(fn):
+                    for ch in ast.iter_child_nodes(n):
+                        ch._rp = n  # type: ignore[attr-defined]
+                for n in loads:
+                    par = getattr(n, "_rp", None)
+                    if isinstance(par, ast.Attribute) and par.value is n and par.attr in fields and isinstance(par.ctx, ast.Load):
+                        continue
+                    if isinstance(par, ast.Starred) and isinstance(getattr(par, "_rp", None), ast.Call):
+                        continue
+                    if isinstance(par, ast.Assign) and par.value is n and len(par.targets) == 1 and \
+                            isinstance(par.targets[0], ast.Tuple) and len(par.targets[0].elts) == len(fields) and \
+                            all(isinstance(e_, ast.Name) for e_ in par.targets[0].elts):
+                        continue
+                    ok = False
+                    break
+                if not ok or not loads:
+                    continue
+                names = []
+                for f_ in fields:
+                    nm = "%s_%s" % (v, f_)
+                    k = 1
+                    while nm in taken:
+                        k += 1
+                        nm = "%s_%s%d" % (v, f_, k)
+                    taken.add(nm)
+                    names.append(nm)
+                new_stmts = [ast.copy_location(ast.Assign(targets=[ast.copy_location(ast.Name(id=nm, ctx=ast.Store()), st)],
+                                                          value=a), st) for nm, a in zip(names, args)]
+                pos = stmts.index(st)
+                stmts[pos:pos + 1] = new_stmts
+
+                class U(ast.NodeTransformer):
+                    def visit_Attribute(self, node: ast.Attribute) -> ast.AST:
+                        self.generic_visit(node)
+                        if isinstance(node.value, ast.Name) and node.value.id == v and node.attr in fields \
+                                and isinstance(node.ctx, ast.Load):
+                            return ast.copy_location(ast.Name(id=names[fields.index(node.attr)], ctx=ast.Load()), node)
+                        return node
+
+                    def visit_Call(self, node: ast.Call) -> ast.AST:
+                        self.generic_visit(node)
+                        new_args: List[ast.expr] = []
+                        for a in node.args:
+                            if isinstance(a, ast.Starred) and isinstance(a.value, ast.Name) and a.value.id == v:
+                                new_args.extend(ast.copy_location(ast.Name(id=nm, ctx=ast.Load()), a) for nm in names)
+                            else:
+                                new_args.append(a)
+                        node.args = new_args
+                        return node
+
+                    def visit_Assign(self, node: ast.Assign) -> ast.AST:
+                        self.generic_visit(node)
+                        if isinstance(node.value, ast.Name) and node.value.id == v and len(node.targets) == 1 and \
+                                isinstance(node.targets[0], ast.Tuple):
+                            node.value = ast.copy_location(ast.Tuple(elts=[ast.copy_location(
+                                ast.Name(id=nm, ctx=ast.Load()), node) for nm in names], ctx=ast.Load()), node)
+                        return node
+                U().visit(fn)
+                stores.pop(v, None)
+                changed = True
+                self.report.temporaries += 1
+                return
+        for _ in range(6):
+            before = changed
+            changed = False
+            blocks(fn.body)
+            if not changed:
+                changed = before
+                break
+        return changed
 
     def _function_object_class(self, mod: str, name: str) -> Optional[Tuple[List[str], ast.Lambda]]:
         """(field names in constructor order, lambda over the call parameters with ``self$.f`` for
@@ -3237,7 +3780,16 @@ class Normaliser:
                 for r in live[1:]:
                     common &= set(r)
                 common -= params
-                common = {c_ for c_ in common if any(const_like(r[c_].value) for r in live)}
+                def sunk_tail(c_: str) -> bool:
+                    # no constant arm, but the very next statement is the only use of the local (a
+                    # common tail that was sunk below the branches): it goes back into them
+                    nxt = stmts[k + 1]
+                    uses_ = [n for n in _walk_scope(fn) if isinstance(n, ast.Name) and n.id == c_ and isinstance(n.ctx, ast.Load)]
+                    here_ = [n for n in [nxt] + list(_walk_scope(nxt)) if isinstance(n, ast.Name) and n.id == c_
+                             and isinstance(n.ctx, ast.Load)]
+                    return len(uses_) == 1 and len(here_) == 1 and isinstance(nxt, (ast.Assign, ast.Expr, ast.Return)) \
+                        and len(list(ast.walk(nxt))) <= 40
+                common = {c_ for c_ in common if any(const_like(r[c_].value) for r in live) or sunk_tail(c_)}
                 if not common:
                     continue
                 x = sorted(common)[0]
@@ -3270,7 +3822,7 @@ class Normaliser:
                 if any(isinstance(m, ScopeT) for m in moved):
                     continue
                 all_const = all(b_ is None or const_like(b_.value) for b_ in binds)
-                if not all_const and not tested_soon(x, rest):
+                if not all_const and not tested_soon(x, rest) and not sunk_tail(x):
                     continue
                 if not all_const and sum(len(list(ast.walk(m))) for m in moved) > 120:
                     continue
@@ -3313,7 +3865,9 @@ class Normaliser:
             if isinstance(n, (ast.FunctionDef, ast.Lambda) + CompT) and any(
                     isinstance(m, ast.Name) and m.id == x for m in ast.walk(n)):
                 return False
-            if isinstance(n, (ast.Try, ast.With, ast.Global, ast.Nonlocal)):
+            if isinstance(n, (ast.Global, ast.Nonlocal)):
+                return False
+            if isinstance(n, ast.Try) and n.finalbody:
                 return False
         loads = [n for n in _walk_scope(fn) if isinstance(n, ast.Name) and n.id == x and isinstance(n.ctx, ast.Load)]
         if len(loads) != 1:
@@ -3326,9 +3880,29 @@ class Normaliser:
                 init = st
                 break
             if any(isinstance(n, ast.Name) and n.id == x for n in ast.walk(st)):
-                return False
-        if init is None or not (isinstance(init.value, ast.Constant) or _purity(init.value, set()) == 0):
+                break               # first mentioned inside a compound statement: no initial value
+        if init is not None and not (isinstance(init.value, ast.Constant) or _purity(init.value, set()) == 0):
             return False
+        if init is None:
+            # no initial value: every way of reaching the final return must end in a binding of x
+            def covers(stmts: List[ast.stmt]) -> bool:
+                if not stmts:
+                    return False
+                last = stmts[-1]
+                if self._always_exits(stmts):
+                    return True
+                if isinstance(last, ast.Assign) and len(last.targets) == 1 and isinstance(last.targets[0], ast.Name) \
+                        and last.targets[0].id == x:
+                    return True
+                if isinstance(last, ast.If):
+                    return bool(last.orelse) and covers(last.body) and covers(last.orelse)
+                if isinstance(last, ast.Try) and not last.finalbody:
+                    return covers(last.orelse if last.orelse else last.body) and all(covers(h.body) for h in last.handlers)
+                if isinstance(last, ast.With):
+                    return covers(last.body)
+                return False
+            if not covers(body[:-1]):
+                return False
         sites: List[Tuple[List[ast.stmt], int, bool]] = []      # (block, index of the assignment, via break)
         okay = True
 
@@ -3361,6 +3935,22 @@ class Normaliser:
                 tail(last.body, False)
                 tail(last.orelse, False)
                 return
+            if isinstance(last, ast.Try) and not last.finalbody:
+                # after the try statement nothing but the final return runs: the end of the else
+                # clause (or of the body when there is none) and the end of every handler are tails
+                check_no_bind(stmts[:-1])
+                if last.orelse:
+                    check_no_bind(last.body)
+                    tail(last.orelse, False)
+                else:
+                    tail(last.body, False)
+                for hd in last.handlers:
+                    tail(hd.body, False)
+                return
+            if isinstance(last, ast.With):
+                check_no_bind(stmts[:-1])
+                tail(last.body, False)
+                return
             if isinstance(last, (ast.For, ast.While)) and not last.orelse:
                 check_no_bind(stmts[:-1])
                 # breaks of nested loops inside would not leave this loop
@@ -3383,10 +3973,12 @@ class Normaliser:
                 for n in [st] + list(_walk_scope(st)):
                     if isinstance(n, ast.Name) and n.id == x and not isinstance(n.ctx, ast.Load):
                         okay = False
-        idx_init = body.index(init)
-        check_no_bind(body[:idx_init])
+        idx_init = body.index(init) if init is not None else -1
+        check_no_bind(body[:max(idx_init, 0)])
         tail(body[idx_init + 1:-1], False)
         if not okay or not sites:
+            return False
+        if init is None and any(via for _b, _i, via in sites):
             return False
         for blk, i, via_break in sites:
             st = blk[i]
@@ -3394,8 +3986,11 @@ class Normaliser:
             blk[i] = ast.copy_location(ast.Return(value=st.value), st)
             if via_break:
                 del blk[i + 1]
-        body[-1].value = copy.deepcopy(init.value)
-        body.remove(init)
+        if init is not None:
+            body[-1].value = copy.deepcopy(init.value)
+            body.remove(init)
+        else:
+            body.pop()              # unreachable now: every path to it returns earlier
         self.report.shapes += 1
         return True
 
@@ -3503,13 +4098,17 @@ class Normaliser:
             if not ok or attr is None or not plan or len(seen_targets) != len(sts):
                 continue
             if not any(p_[2] is None for p_ in plan):
-                continue            # never read from the attribute: an ordinary temporary
+                # never read from the attribute: an ordinary temporary, unless it is also used
+                # after having been stored (then those uses are uses of the attribute)
+                n_loads = sum(1 for n in _walk_scope(fn) if isinstance(n, ast.Name) and n.id == x and isinstance(n.ctx, ast.Load))
+                if n_loads <= len(plan):
+                    continue
             # who assigns .attr: this method (only in the paired form) and constructors
             if not (sites.get(attr, set()) <= ({id(fn)} | ctor_ids)):
                 continue
             # setattr with a computed name (the indexed-attribute descriptors) writes "_<name>" for
             # a class-level descriptor <name>: not this attribute unless such a name exists
-            if "*" in sites and any(k in sites for k in (attr.lstrip("_"),)) :
+            if "*" in sites and attr.startswith("_") and attr.lstrip("_") in sites:
                 continue
             paired = {id(p_[2].targets[0]) for p_ in plan if p_[2] is not None}
             other_stores = [n for n in _walk_scope(fn) if isinstance(n, ast.Attribute) and n.attr == attr
@@ -3604,6 +4203,312 @@ class Normaliser:
                     c.bases = [b for b in c.bases if not (isinstance(b, ast.Name) and b.id == base.name)]
                 tree.body.remove(base)
                 self.report.shapes += 1
+
+    def _known_classes(self) -> Set[str]:
+        funcs = self.vocab.get("functions") or []
+        known_classes: Set[str] = set()
+        for k in funcs:
+            mod_, q = k.split(":", 1)
+            parts = q.split(".")
+            for i in range(1, len(parts)):
+                known_classes.add("%s:%s" % (mod_, ".".join(parts[:i])))
+        for k in self.vocab.get("class_attrs") or []:
+            mod_, q = k.split(":", 1)
+            known_classes.add("%s:%s" % (mod_, q.rsplit(".", 1)[0]))
+        return known_classes
+
+    @staticmethod
+    def _stores_only_init(c: ast.ClassDef) -> Optional[Tuple[List[str], Dict[str, str]]]:
+        """(constructor parameters in order, attribute -> parameter) when ``__init__`` does nothing
+        but store each parameter in one attribute; ([], {}) when the class has no ``__init__``"""
+        init = next((b for b in c.body if isinstance(b, ast.FunctionDef) and b.name == "__init__"), None)
+        if init is None:
+            return [], {}
+        ia = init.args
+        if ia.vararg or ia.kwarg or ia.kwonlyargs or ia.posonlyargs or ia.defaults or not ia.args or init.decorator_list:
+            return None
+        me = ia.args[0].arg
+        params = [a.arg for a in ia.args[1:]]
+        stored: Dict[str, str] = {}
+        for st in _body_wo_doc(init):
+            tg = None
+            if isinstance(st, ast.Assign) and len(st.targets) == 1:
+                tg = st.targets[0]
+            elif isinstance(st, ast.AnnAssign) and st.value is not None:
+                tg = st.target
+            if tg is not None and isinstance(tg, ast.Attribute) and isinstance(tg.value, ast.Name) \
+                    and tg.value.id == me and isinstance(st.value, ast.Name) and st.value.id in params \
+                    and tg.attr not in stored and st.value.id not in stored.values():
+                stored[tg.attr] = st.value.id
+            elif isinstance(st, ast.Pass):
+                continue
+            else:
+                return None
+        if sorted(stored.values()) != sorted(params):
+            return None
+        return params, stored
+
+    def helper_objects(self) -> None:
+        """private classes the pinned tree does not have that only package a piece of control flow:
+
+        * an *iterable object* (``__init__`` stores its arguments, ``__iter__`` is a generator over
+          them) built directly as the argument of a call or the subject of a ``for``: a nested
+          generator function of the function that builds it, called at that place;
+        * a *context manager* whose ``__enter__`` does nothing and whose ``__exit__`` is one
+          ``if`` on the class of the exception in flight ending in ``raise``:
+          ``with C(a): body`` is ``try: body  except T as exc: <that if's body>``.
+
+        The class goes when no other reference to it is left."""
+        if not self.vocab.get("functions"):
+            return
+        known_classes = self._known_classes()
+        for mod, tree in self.trees.items():
+            for c in [n for n in tree.body if isinstance(n, ast.ClassDef)]:
+                if not c.name.startswith("_") or ("%s:%s" % (mod, c.name)) in known_classes:
+                    continue
+                if c.keywords or c.decorator_list:
+                    continue
+                if any(not (isinstance(b, ast.Subscript) and (attr_path_(b.value) or ("",))[-1] == "Generic")
+                       and (attr_path_(b) or ("",))[-1] not in ("object", "ContextManager", "AbstractContextManager")
+                       for b in c.bases):
+                    continue
+                methods: Dict[str, ast.FunctionDef] = {}
+                ok = True
+                for b in c.body:
+                    if isinstance(b, ast.Expr) and isinstance(b.value, ast.Constant) or isinstance(b, ast.Pass):
+                        continue
+                    if isinstance(b, ast.Assign) and len(b.targets) == 1 and isinstance(b.targets[0], ast.Name) \
+                            and b.targets[0].id == "__slots__":
+                        continue
+                    if isinstance(b, ast.AnnAssign) and b.value is None:
+                        continue
+                    if isinstance(b, ast.FunctionDef) and not b.decorator_list and b.name not in methods:
+                        methods[b.name] = b
+                        continue
+                    ok = False
+                if not ok:
+                    continue
+                so = self._stores_only_init(c)
+                if so is None:
+                    continue
+                params, stored = so
+                kind = None
+                if set(methods) - {"__init__"} == {"__iter__"}:
+                    kind = "iter"
+                elif set(methods) - {"__init__"} == {"__enter__", "__exit__"}:
+                    kind = "cm"
+                if kind is None:
+                    continue
+                # nobody writes the attributes outside the constructor; the methods only read them
+                body_m = [m for nm, m in methods.items() if nm != "__init__"]
+                if any(isinstance(x, ast.Attribute) and not isinstance(x.ctx, ast.Load) for m in body_m for x in ast.walk(m)):
+                    continue
+                if kind == "iter":
+                    done = self._iterable_object(mod, tree, c, params, stored, methods["__iter__"])
+                else:
+                    done = self._context_object(mod, tree, c, params, stored, methods["__enter__"], methods["__exit__"])
+                if done:
+                    refs = sum(1 for t in self.trees.values() for n in ast.walk(t)
+                               if (isinstance(n, ast.Name) and n.id == c.name) or
+                               (isinstance(n, ast.Attribute) and n.attr == c.name) or
+                               (isinstance(n, ast.alias) and n.name == c.name)
+                               if not any(n is x for x in ast.walk(c)))
+                    if refs == 0 and c in tree.body:
+                        tree.body.remove(c)
+                    self.report.shapes += 1
+
+    @staticmethod
+    def _self_to_args(body: List[ast.stmt], me: str, stored: Dict[str, str], args: Dict[str, ast.expr]
+                      ) -> Optional[List[ast.stmt]]:
+        """the statements with ``me.attr`` replaced by the constructor argument stored in it; None
+        when ``me`` is used in any other way"""
+        bad = [False]
+
+        class R(ast.NodeTransformer):
+            def visit_Attribute(self, nd: ast.Attribute) -> ast.AST:
+                if isinstance(nd.value, ast.Name) and nd.value.id == me:
+                    if nd.attr in stored and isinstance(nd.ctx, ast.Load):
+                        return ast.copy_location(copy.deepcopy(args[stored[nd.attr]]), nd)
+                    bad[0] = True
+                    return nd
+                self.generic_visit(nd)
+                return nd
+
+            def visit_Name(self, nd: ast.Name) -> ast.AST:
+                if nd.id == me:
+                    bad[0] = True
+                return nd
+        out = [R().visit(copy.deepcopy(s)) for s in body]
+        return None if bad[0] else out
+
+    def _enclosing_functions(self, tree: ast.Module) -> Dict[int, ast.FunctionDef]:
+        """id(node) -> innermost function around it"""
+        enc: Dict[int, ast.FunctionDef] = {}
+
+        def go(n: ast.AST, cur: Optional[ast.FunctionDef]) -> None:
+            for ch in ast.iter_child_nodes(n):
+                if cur is not None:
+                    enc[id(ch)] = cur
+                go(ch, ch if isinstance(ch, ast.FunctionDef) else cur)
+        go(tree, None)
+        return enc
+
+    def _iterable_object(self, mod: str, tree: ast.Module, c: ast.ClassDef, params: List[str],
+                         stored: Dict[str, str], it: ast.FunctionDef) -> bool:
+        if len(it.args.args) != 1 or it.args.vararg or it.args.kwarg or it.args.kwonlyargs or it.args.defaults:
+            return False
+        if not any(isinstance(x, (ast.Yield, ast.YieldFrom)) for x in _walk_scope(it)):
+            return False
+        if any(isinstance(x, ast.Return) and x.value is not None for x in _walk_scope(it)):
+            return False
+        me = it.args.args[0].arg
+        enc = self._enclosing_functions(tree)
+        sites: List[Tuple[ast.AST, ast.Call]] = []
+        for holder in ast.walk(tree):
+            if any(holder is x for x in ast.walk(c)):
+                continue
+            cands: List[ast.expr] = []
+            if isinstance(holder, ast.Call):
+                cands = list(holder.args)
+            elif isinstance(holder, ast.For):
+                cands = [holder.iter]
+            elif isinstance(holder, ast.comprehension):
+                cands = [holder.iter]
+            for a in cands:
+                if isinstance(a, ast.Call) and isinstance(a.func, ast.Name) and a.func.id == c.name:
+                    sites.append((holder, a))
+        changed = False
+        for holder, call in sites:
+            fn = enc.get(id(call))
+            if fn is None or call.keywords or len(call.args) != len(params) \
+                    or any(isinstance(a, ast.Starred) for a in call.args):
+                continue
+            # the arguments are names the function never rebinds (the generator reads them later)
+            rebinds = {n.id for n in _walk_scope(fn) if isinstance(n, ast.Name) and not isinstance(n.ctx, ast.Load)}
+            if not all(isinstance(a, ast.Name) and a.id not in rebinds for a in call.args):
+                continue
+            own_locals = {n.id for n in _walk_scope(it) if isinstance(n, ast.Name) and not isinstance(n.ctx, ast.Load)}
+            if any(isinstance(a, ast.Name) and a.id in own_locals for a in call.args):
+                continue
+            body = self._self_to_args(_body_wo_doc(it), me, stored, dict(zip(params, call.args)))
+            if body is None:
+                continue
+            gname = c.name.lstrip("_").lower() + "_items"
+            taken = {n.id for n in ast.walk(fn) if isinstance(n, ast.Name)} | {
+                n.name for n in ast.walk(fn) if isinstance(n, ast.FunctionDef)}
+            existing = next((s for s in fn.body if isinstance(s, ast.FunctionDef) and s.name == gname
+                             and getattr(s, "_from_iterable", None) == ast.dump(call)), None)
+            if existing is None:
+                while gname in taken:
+                    gname += "_"
+                g = ast.FunctionDef(name=gname, args=ast.arguments(posonlyargs=[], args=[], vararg=None, kwonlyargs=[],
+                                                                    kw_defaults=[], kwarg=None, defaults=[]),
+                                    body=body, decorator_list=[], returns=None, type_comment=None, type_params=[])
+                g._from_iterable = ast.dump(call)  # type: ignore[attr-defined]
+                g._mod = mod  # type: ignore[attr-defined]
+                ast.copy_location(g, fn.body[0])
+                k = 1 if fn.body and isinstance(fn.body[0], ast.Expr) and isinstance(fn.body[0].value, ast.Constant) \
+                    and isinstance(fn.body[0].value.value, str) else 0
+                fn.body.insert(k, g)
+            else:
+                gname = existing.name
+            new = ast.copy_location(ast.Call(func=ast.Name(id=gname, ctx=ast.Load()), args=[], keywords=[]), call)
+            if isinstance(holder, ast.Call):
+                holder.args = [new if a is call else a for a in holder.args]
+            else:
+                holder.iter = new  # type: ignore[union-attr]
+            ast.fix_missing_locations(fn)
+            changed = True
+        return changed
+
+    def _context_object(self, mod: str, tree: ast.Module, c: ast.ClassDef, params: List[str], stored: Dict[str, str],
+                        enter: ast.FunctionDef, exit_: ast.FunctionDef) -> bool:
+        eb = _body_wo_doc(enter)
+        if len(enter.args.args) != 1 or not all(
+                isinstance(s, ast.Pass) or (isinstance(s, ast.Return) and (
+                    s.value is None or (isinstance(s.value, ast.Constant) and s.value.value is None) or
+                    (isinstance(s.value, ast.Name) and s.value.id == enter.args.args[0].arg))) for s in eb):
+            return False
+        xa = exit_.args
+        if len(xa.args) != 4 or xa.vararg or xa.kwarg or xa.kwonlyargs or xa.defaults:
+            return False
+        me, et, ev, tb = [a.arg for a in xa.args]
+        xb = list(_body_wo_doc(exit_))
+        # trailing 'return None/False' says nothing
+        while xb and isinstance(xb[-1], ast.Return) and (xb[-1].value is None or (
+                isinstance(xb[-1].value, ast.Constant) and not xb[-1].value.value)):
+            xb.pop()
+        if len(xb) != 1 or not isinstance(xb[0], ast.If) or xb[0].orelse:
+            return False
+        test = xb[0].test
+        conj = list(test.values) if isinstance(test, ast.BoolOp) and isinstance(test.op, ast.And) else [test]
+        types: Optional[ast.expr] = None
+        for t in conj:
+            if isinstance(t, ast.Compare) and len(t.ops) == 1 and isinstance(t.ops[0], ast.IsNot) \
+                    and isinstance(t.left, ast.Name) and t.left.id in (et, ev) \
+                    and isinstance(t.comparators[0], ast.Constant) and t.comparators[0].value is None:
+                continue
+            if isinstance(t, ast.Call) and isinstance(t.func, ast.Name) and len(t.args) == 2 and not t.keywords and (
+                    (t.func.id == "issubclass" and isinstance(t.args[0], ast.Name) and t.args[0].id == et) or
+                    (t.func.id == "isinstance" and isinstance(t.args[0], ast.Name) and t.args[0].id == ev)) \
+                    and types is None:
+                # issubclass(None, T) fails: the not-None test has to come first
+                if t.func.id == "issubclass" and not any(
+                        isinstance(p, ast.Compare) and isinstance(p.left, ast.Name) and p.left.id in (et, ev)
+                        for p in conj[:conj.index(t)]):
+                    return False
+                types = t.args[1]
+                continue
+            return False
+        if types is None or any(isinstance(x, ast.Name) and x.id in (me, et, ev, tb) for x in ast.walk(types)):
+            return False
+        handler_body = xb[0].body
+        if not handler_body or not isinstance(handler_body[-1], ast.Raise) or handler_body[-1].exc is None:
+            return False
+        if any(isinstance(x, ast.Return) for s in handler_body for x in ast.walk(s)):
+            return False
+        if any(isinstance(x, ast.Name) and x.id in (et, tb) for s in handler_body for x in ast.walk(s)):
+            return False
+        changed = False
+        for holder in ast.walk(tree):
+            if any(holder is x for x in ast.walk(c)):
+                continue
+            for fld in ("body", "orelse", "finalbody"):
+                blk = getattr(holder, fld, None)
+                if not isinstance(blk, list):
+                    continue
+                for i, st in enumerate(list(blk)):
+                    if not (isinstance(st, ast.With) and len(st.items) == 1 and st.items[0].optional_vars is None):
+                        continue
+                    call = st.items[0].context_expr
+                    if not (isinstance(call, ast.Call) and isinstance(call.func, ast.Name) and call.func.id == c.name):
+                        continue
+                    if call.keywords or len(call.args) != len(params) or any(isinstance(a, ast.Starred) for a in call.args):
+                        continue
+                    # the arguments are evaluated before the body and read after it: names and
+                    # constants the body does not rebind
+                    rebound = {n.id for s in st.body for n in ast.walk(s)
+                               if isinstance(n, ast.Name) and not isinstance(n.ctx, ast.Load)}
+                    if not all(isinstance(a, ast.Constant) or (isinstance(a, ast.Name) and a.id not in rebound)
+                               for a in call.args):
+                        continue
+                    hb = self._self_to_args(handler_body, me, stored, dict(zip(params, call.args)))
+                    if hb is None:
+                        continue
+                    used = {n.id for s in st.body for n in ast.walk(s) if isinstance(n, ast.Name)}
+                    evn = ev
+                    while evn in used:
+                        evn += "_"
+                    if evn != ev:
+                        hb = [_Subst({ev: ast.Name(id=evn, ctx=ast.Load())}).visit(s) for s in hb]
+                    tr = ast.Try(body=st.body, handlers=[ast.ExceptHandler(type=copy.deepcopy(types), name=evn, body=hb)],
+                                 orelse=[], finalbody=[])
+                    ast.copy_location(tr, st)
+                    ast.copy_location(tr.handlers[0], st)
+                    blk[blk.index(st)] = tr
+                    ast.fix_missing_locations(tr)
+                    changed = True
+        return changed
 
     def specialise_inherited(self) -> None:
         """a method the pinned tree defines in class C, which C now inherits from a base class of
@@ -3786,6 +4691,7 @@ class Normaliser:
         self.flatten_new_bases()
         self.specialise_inherited()
         self.restore_signatures()
+        self.helper_objects()
         self.module_constants()
         self.parameter_names()
         # helpers are brought into normal form before they are inlined (merged guards, no
